@@ -212,6 +212,15 @@ def catalogue(big=False):
                                    [call("FL"),
                                     call("INNER", binds={"x": split(xs), "skip": split(fl)}, mode="array")],
                                    {"o": ref("INNER", "y")})], "TOP", {}))
+    # ... and flags that are all literals, mixing true and false (no reference at all)
+    P.append(program("dis_lit_flags", [],
+                     [S_echo("WORK")],
+                     [pipeline("INNER", "int x, bool skip", "int y",
+                               [call("WORK", binds={"x": self_("x")}, dis=self_("skip"))],
+                               {"y": ref("WORK", "y")}),
+                      pipeline("TOP", "", "int[] o",
+                               [call("INNER", binds={"x": split(lit([10, 20, 30])), "skip": split(lit([False, True, False]))}, mode="array")],
+                               {"o": ref("INNER", "y")})], "TOP", {}))
     P.append(program("dis_lit_struct_flag", [struct("ITEM", "int v, bool skip")],
                      [stage("FL", "", "bool t, bool f", {"t": const(True), "f": const(False)}), S_echo("WORK")],
                      [pipeline("INNER", "ITEM item", "int y",
